@@ -41,7 +41,12 @@ class VLoop(asyncio.BaseEventLoop):
             self.idle_rounds = 0
             return ready
         if timeout is None:
-            # nothing runnable, no timer: ask the environment once more, then give up
+            # nothing runnable, no timer: let the environment unblock something (e.g. start a caller whose start
+            # condition can no longer be met), else ask once more, then give up
+            hook = getattr(self, "on_idle", None)
+            if hook is not None and hook():
+                self.idle_rounds = 0
+                return []
             self.idle_rounds += 1
             if self.idle_rounds > 3:
                 raise Deadlock("no runnable task, no timer, no pending external event")
